@@ -227,6 +227,15 @@ theorem C15_no_lost_wakeup (manual : Bool) (s : W) (h : GB.LTS.Reachable step (W
     (s.callers i).served = true ∨ Coming s ∨ s.closer ≠ .idle :=
   inv_no_lost s (inv_reachable manual s h) i hf
 
+/-- **The once-func closes the armed channel.** Its closure reads the field `r.resolveNow` when it
+    runs; in every reachable state a caller that won the once of generation `g` finds `g` still in
+    that field (the poller cannot re-arm before this very close), so the close wakes the poller and
+    the field read is ordered before the poller's write. -/
+theorem C15_winner_closes_armed_channel (manual : Bool) (s : W) (h : GB.LTS.Reachable step (W.init manual) s)
+    (i : Nat) (hw : (s.callers i).pc = .won) :
+    (s.callers i).gen = s.cur ∧ s.ppc ≠ .woken ∧ s.ppc ≠ .madeChan :=
+  inv_winner_current s (inv2_reachable manual s h).1 (inv2_reachable manual s h).2 i hw
+
 /-- **A coming poll does come**: while one is coming and `Close` has not been called, some step of
     the poller (or of the caller that owes the channel close) is enabled and strictly decreases
     the distance `rank` to the poll start; no other step (any caller, any label except calling
